@@ -4,8 +4,11 @@ package c20
 
 import (
 	"bytes"
+	"context"
+	"crypto/x509"
 	"errors"
 	"fmt"
+	"github.com/notaryproject/tspclient-go"
 	"strings"
 	"time"
 
@@ -13,6 +16,7 @@ import (
 
 	"verif/harness/core"
 	"verif/harness/envcmp"
+	"verif/harness/envcodec"
 	"verif/harness/pki"
 	"verif/harness/props"
 	"verif/harness/sims"
@@ -28,7 +32,7 @@ var opNames = []string{"signA", "signB", "signEarlyFail", "signLateFail", "verif
 type Case struct {
 	MT     string
 	Remote bool
-	Start  string // new | parsed | tampered
+	Start  string // new | parsed | tampered | bstr-chain (COSE: one-certificate chain carried as a single byte string)
 	Ops    []int
 }
 
@@ -46,6 +50,7 @@ type fixtures struct {
 	parsed   map[string][]byte
 	tampered map[string][]byte
 	wantP    map[string]*envcmp.Want
+	bstr     []byte // COSE, genuinely signed, x5chain = bstr instead of [bstr]
 }
 
 var fx *fixtures
@@ -86,6 +91,13 @@ func setup() *fixtures {
 		}
 		f.tampered[mt] = t
 	}
+	self := pki.SimpleChain("p256", 3, 1, "c20-self")
+	b, err := envcodec.BuildCOSE(&envcodec.COSEBuild{Prot: sims.ConformantCOSE("notary.x509", envcodec.AlgByName("ES256").COSE, sims.SignTime, time.Time{}), Payload: payloadOf("S"),
+		Alg: envcodec.AlgByName("ES256"), Key: self.Keys[0].Priv, Unprot: []envcodec.KV{{K: envcodec.Int(envcodec.CX5Chain), V: envcodec.Bstr(self.Certs[0].Raw)}}})
+	if err != nil {
+		panic(err)
+	}
+	f.bstr = b
 	return f
 }
 
@@ -98,6 +110,7 @@ func want(mt string, ch *pki.Chain, payload []byte, st time.Time) *envcmp.Want {
 type state struct {
 	w        *envcmp.Want
 	tampered bool
+	opaque   bool // holds bytes the statement does not settle: whatever they give, they give it every time
 	name     string
 }
 
@@ -119,6 +132,9 @@ func execute(r *core.Run, c *Case) {
 	case "parsed":
 		env, err = signature.ParseEnvelope(mt, fx.parsed[mt])
 		states = []state{{w: fx.wantP[mt], name: "Holds(parsed)"}}
+	case "bstr-chain":
+		env, err = signature.ParseEnvelope(mt, fx.bstr)
+		states = []state{{opaque: true, name: "Holds(bstr-chain)"}}
 	default:
 		env, err = signature.ParseEnvelope(mt, fx.tampered[mt])
 		states = []state{{tampered: true, name: "Holds(tampered)"}}
@@ -143,6 +159,11 @@ func execute(r *core.Run, c *Case) {
 	}()
 	var tamperedContent *signature.EnvelopeContent
 	var tamperedErr, tamperedSeen bool
+	type seenT struct {
+		seen, failed bool
+		content      *signature.EnvelopeContent
+	}
+	opq := map[bool]*seenT{true: {}, false: {}} // by isVerify
 	fail := func(i int, sig, what string) {
 		r.Violation(sig+":"+mtName(mt), fmt.Sprintf("%s -- at op %d (%s): %s", c.desc(), i, opNames[c.Ops[i]], what), c)
 	}
@@ -203,12 +224,24 @@ func execute(r *core.Run, c *Case) {
 			} else {
 				// the signer is used, the result is rejected afterwards
 				req, rs = mkReq("F", time.Date(2010, 1, 1, 0, 0, 0, 0, time.UTC), payloadOf("F")) // before the leaf's NotBefore
-				if c.Remote && i%3 == 1 {
+				v := i
+				for _, o := range c.Ops {
+					v += o
+				}
+				if v%4 == 3 {
+					// variant: everything is in order, but the timestamp authority the
+					// request names cannot be reached (after the signer did its work)
+					req.SigningTime = sims.SignTime
+					req.Timestamper = downTSA{}
+					req.TSARootCAs = x509.NewCertPool()
+					r.Count("late-fail-at-the-timestamp-authority", 1)
+				}
+				if c.Remote && v%4 == 1 {
 					// variant: remote signer hands back a chain for another key
 					req.SigningTime = sims.SignTime
 					rs.Chain = fx.other.Certs
 				}
-				if c.Remote && i%3 == 2 {
+				if c.Remote && v%4 == 2 {
 					// variant: the signer declares (and signs for) another key
 					// spec than its chain's leaf has
 					req.SigningTime = sims.SignTime
@@ -239,7 +272,7 @@ func execute(r *core.Run, c *Case) {
 			// next state: previous or None
 			hasNone := false
 			for _, s := range states {
-				if s.w == nil && !s.tampered {
+				if s.w == nil && !s.tampered && !s.opaque {
 					hasNone = true
 				}
 			}
@@ -281,7 +314,22 @@ func execute(r *core.Run, c *Case) {
 					} else {
 						next = append(next, s)
 					}
-				case s.w == nil:
+				case s.opaque:
+					me, other := opq[isVerify], opq[!isVerify]
+					switch {
+					case !me.seen:
+						me.seen, me.failed, me.content = true, oerr != nil, content
+						if other.seen && ((isVerify && oerr == nil && other.failed) || (!isVerify && oerr != nil && !other.failed)) {
+							why = append(why, s.name+": Verify() succeeds on an object whose Content() fails")
+						} else {
+							next = append(next, s)
+						}
+					case me.failed != (oerr != nil) || (oerr == nil && len(envcmp.SameContent(mt, content, me.content)) > 0):
+						why = append(why, fmt.Sprintf("%s: %s is not repeatable (failed before: %v, now err=%v)", s.name, opNames[op], me.failed, oerr))
+					default:
+						next = append(next, s)
+					}
+				case s.w == nil && !s.tampered:
 					if oerr != nil && notPresent(oerr) {
 						next = append(next, s)
 					} else {
@@ -311,6 +359,13 @@ func execute(r *core.Run, c *Case) {
 	}
 }
 
+// downTSA is a timestamp authority that cannot be reached.
+type downTSA struct{}
+
+func (downTSA) Timestamp(context.Context, *tspclient.Request) (*tspclient.Response, error) {
+	return nil, errors.New("timestamp authority unreachable")
+}
+
 func mtName(mt string) string {
 	if mt == sims.JWS {
 		return "jws"
@@ -320,7 +375,7 @@ func mtName(mt string) string {
 
 func run(r *core.Run) int {
 	r.Rule = "every operation history up to length 4 (quick) / 5 (thorough) over {sign A, sign B, sign failing before the signer is invoked (no signing time), sign failing after it (signing time before the leaf's validity; remote variant: chain for another key), verify, content} " +
-		"from a new, a parsed-valid and a parsed-tampered object, JWS and COSE, local and remote signer; the monitor tracks the set of reference states {None, Holds(X)} consistent with all outputs. non-trivial = the history has a Sign followed by a read; distinct by descriptor"
+		"(further late failures: remote signer whose chain or declared key spec does not fit, unreachable timestamp authority) from a new, a parsed-valid and a parsed-tampered object (COSE also: a parsed object whose one-certificate chain is a bare byte string, for which only repeatability and Verify-succeeds-implies-Content-succeeds are demanded), JWS and COSE, local and remote signer; the monitor tracks the set of reference states {None, Holds(X)} consistent with all outputs. non-trivial = the history has a Sign followed by a read; distinct by descriptor"
 	r.Assume("'no signature present' is recognised by the two not-found error types of the signature package")
 	fx = setup()
 	depth := r.Pick(4, 5)
@@ -330,7 +385,10 @@ func run(r *core.Run) int {
 		if len(prefix) > 0 {
 			for _, mt := range []string{sims.JWS, sims.COSE} {
 				for _, remote := range []bool{false, true} {
-					for _, st := range []string{"new", "parsed", "tampered"} {
+					for _, st := range []string{"new", "parsed", "tampered", "bstr-chain"} {
+						if st == "bstr-chain" && mt != sims.COSE {
+							continue
+						}
 						cases = append(cases, &Case{MT: mt, Remote: remote, Start: st, Ops: append([]int{}, prefix...)})
 					}
 				}
